@@ -25,10 +25,16 @@ HasStates(sys) == \E i \in DOMAIN sys.classes : sys.classes[i].role = "state"
 IsExt(sys, n) == "marks" \in DOMAIN sys /\ \E i \in DOMAIN sys.marks : sys.marks[i].name = n
 ExtBaseOf == [x1 |-> 107, x2 |-> 114, x3 |-> 121, u |-> 128]
 ExtVal(sys, n) == I(ExtBaseOf[n] + 1000 * sys.step)
+\* The unknowns of the implicit equations live in component A:  one / guess / mixed: u + u = 8 (+ nlaDep), mixed: u + w = 6;
+\* pair: u + w = 5, u - w = 1.  With a dependency (a state or t) on the right-hand side u is a genuine algebraic variable.
+NlaDep(sys) == IF "nlaDep" \in DOMAIN sys THEN sys.nlaDep ELSE NoneS
+UConst(sys) == NlaDep(sys) = NoneS
 RECURSIVE Base(_, _, _)
+RECURSIVE UVal(_, _)
 Seen(sys, n, comp, depth) ==            \* value of class n expressed in the units of component comp
     IF n = "t" THEN I(0)
-    ELSE IF n = "u" THEN QMul(ExtVal(sys, n), Pow10(0 - LogOf(comp)))
+    ELSE IF n = "u" THEN QMul(UVal(sys, depth), Pow10(0 - LogOf(comp)))
+    ELSE IF n = "w" THEN QMul(I(2), Pow10(0 - LogOf(comp)))
     ELSE LET c == Get(sys, n) IN QMul(Base(sys, n, depth), Pow10(LogOf(c.home) - LogOf(comp)))
 Base(sys, n, depth) ==                   \* value in the units of the class's home component
     LET c == Get(sys, n) IN
@@ -37,6 +43,11 @@ Base(sys, n, depth) ==                   \* value in the units of the class's ho
     ELSE CASE c.role \in {"const", "state"} -> I(c.init)
            [] c.role \in {"cc", "alg"} -> LET RECURSIVE Sum(_) Sum(i) == IF i > Len(c.deps) THEN I(c.k) ELSE QAdd(Seen(sys, c.deps[i], c.home, depth - 1), Sum(i + 1)) IN Sum(1)
            [] c.role = "nla" -> I(c.init)        \* for NLA unknowns init holds the known solution
+UVal(sys, depth) ==
+    IF depth = 0 THEN Undef
+    ELSE IF IsExt(sys, "u") THEN ExtVal(sys, "u")
+    ELSE IF sys.nla = "pair" THEN I(3)
+    ELSE IF UConst(sys) THEN I(4) ELSE QAdd(I(4), QDiv(Seen(sys, NlaDep(sys), "A", depth - 1), I(2)))
 Rate(sys, n) == LET c == Get(sys, n) IN
                 LET RECURSIVE Sum(_) Sum(i) == IF i > Len(c.deps) THEN I(c.k) ELSE QAdd(Seen(sys, c.deps[i], c.home, 6), Sum(i + 1)) IN Sum(1)
 
@@ -52,29 +63,52 @@ Faulty(sys) == "fault" \in DOMAIN sys /\ sys.fault.kind # NoneS
 ExpectedType(sys) == IF sys.nla # NoneS THEN (IF HasStates(sys) THEN "dae" ELSE "nla") ELSE IF HasStates(sys) THEN "ode" ELSE "algebraic"
 VarType(c) == CASE c.role = "const" -> "constant" [] c.role = "cc" -> "computed_constant" [] c.role = "state" -> "state" [] c.role \in {"alg", "nla"} -> "algebraic"
 EqTypes(c) == CASE c.role = "cc" -> {"variable_based_constant", "true_constant"} [] c.role = "state" -> {"ode"} [] c.role = "alg" -> {"algebraic"} [] c.role = "nla" -> {"nla"} [] OTHER -> {}
+\* does class n read (through equations) the unknown of the implicit equation
+RECURSIVE ReadsUT(_, _, _)
+ReadsUT(sys, n, depth) == IF n = "t" \/ depth = 0 THEN FALSE ELSE IF n = "u" THEN TRUE ELSE LET c == Get(sys, n) IN \E j \in DOMAIN c.deps : ReadsUT(sys, c.deps[j], depth - 1)
 ErrTypes == {"invalid", "underconstrained", "overconstrained", "unsuitably_constrained"}
 \* components in which a class has a member variable: its home and every component of a class that reads it
 UsedIn(sys, n) == (IF n = "t" THEN {"A"} ELSE {Get(sys, n).home}) \cup {sys.classes[i].home : i \in {k \in DOMAIN sys.classes : \E j \in DOMAIN sys.classes[k].deps : sys.classes[k].deps[j] = n}}
 
 \* ---------------------------------------------------------------- well-posed systems of the bounded scope
-NonConst(sys, n) == n = "t" \/ Get(sys, n).role \in {"state", "alg"}
+HasNla(sys) == sys.nla # NoneS
+NonConst(sys, n) == n = "t" \/ (n = "u" /\ HasNla(sys) /\ ~UConst(sys)) \/ (n \notin {"t", "u"} /\ Get(sys, n).role \in {"state", "alg"})
 WellPosed(sys) ==
     \A i \in DOMAIN sys.classes : LET c == sys.classes[i] IN
-        /\ \A j \in DOMAIN c.deps : c.deps[j] = "t" \/ Has(sys, c.deps[j])
+        /\ \A j \in DOMAIN c.deps : c.deps[j] = "t" \/ (c.deps[j] = "u" /\ HasNla(sys)) \/ (c.deps[j] # "u" /\ Has(sys, c.deps[j]))
         /\ c.role = "const" => c.deps = <<>>
-        /\ c.role = "cc" => c.deps # <<>> /\ \A j \in DOMAIN c.deps : c.deps[j] # "t" /\ Get(sys, c.deps[j]).role \in {"const", "cc"} /\ (\E q \in 1..(i - 1) : sys.classes[q].name = c.deps[j])
+        /\ c.role = "cc" => c.deps # <<>> /\ \A j \in DOMAIN c.deps : \/ (c.deps[j] = "u" /\ UConst(sys))       \* the solution of a constant implicit equation is a constant
+                                                                   \/ /\ c.deps[j] \notin {"t", "u"} /\ Get(sys, c.deps[j]).role \in {"const", "cc"}
+                                                                      /\ (\E q \in 1..(i - 1) : sys.classes[q].name = c.deps[j])
         /\ c.role = "alg" => /\ (\E j \in DOMAIN c.deps : NonConst(sys, c.deps[j]))
-                             /\ \A j \in DOMAIN c.deps : c.deps[j] = "t" \/ (\E q \in 1..(i - 1) : sys.classes[q].name = c.deps[j]) \/ Get(sys, c.deps[j]).role = "state"
+                             /\ \A j \in DOMAIN c.deps : c.deps[j] \in {"t", "u"} \/ (\E q \in 1..(i - 1) : sys.classes[q].name = c.deps[j]) \/ Get(sys, c.deps[j]).role = "state"
         /\ c.role = "state" => c.home = "A"
         /\ (\E j \in DOMAIN c.deps : c.deps[j] = "t") => HasStates(sys)
 Names == <<"x1", "x2", "x3">>
 DepSeqs(S) == {<<>>} \cup {<<a>> : a \in S} \cup {<<a, b>> : a \in S, b \in S}
 \* zeroK: equations with dependencies have no constant term (dx/dt = x rather than dx/dt = 1 + x)
 Systems(n, homes, zeroK) ==
-    {sys \in {[classes |-> [i \in 1..n |-> Class(Names[i], r[i], 10 * i, IF zeroK /\ d[i] # <<>> THEN 0 ELSE i, d[i], h[i])], nla |-> NoneS] :
+    {sys \in {[classes |-> [i \in 1..n |-> Class(Names[i], r[i], 10 * i, IF zeroK /\ d[i] # <<>> THEN 0 ELSE i, d[i], h[i])], nla |-> NoneS, nlaDep |-> NoneS] :
               r \in [1..n -> {"const", "cc", "state", "alg"}], d \in [1..n -> DepSeqs({Names[j] : j \in 1..n} \cup {"t"})], h \in [1..n -> homes]} :
          /\ WellPosed(sys)
          /\ \A i \in 1..n : Len(sys.classes[i].deps) = 2 => sys.classes[i].deps[1] # sys.classes[i].deps[2]}
+\* systems coupled with the implicit equation u + u = 8 (+ nlaDep): classes may read u, the equation may read a state or t
+ReadsU(sys) == \E i \in DOMAIN sys.classes : \E j \in DOMAIN sys.classes[i].deps : sys.classes[i].deps[j] = "u"
+\* (enumerated role by role so that the per-role restrictions prune early: constants read nothing, computed constants and
+\*  algebraic variables read something, states live in A, the implicit equation reads nothing, t or a state)
+RECURSIVE SeqProd(_, _)
+SeqProd(S, i) == IF i > Len(S) THEN {<<>>} ELSE UNION {{<<x>> \o rest : rest \in SeqProd(S, i + 1)} : x \in S[i]}
+NoDup(S) == {d \in S : Len(d) = 2 => d[1] # d[2]}
+DepsFor(role, alphabet) == CASE role = "const" -> {<<>>} [] role \in {"cc", "alg"} -> NoDup(DepSeqs(alphabet)) \ {<<>>} [] OTHER -> NoDup(DepSeqs(alphabet))
+SystemsUK(n, homes, zeroK, kind) ==
+    LET alphabet == {Names[j] : j \in 1..n} \cup {"t", "u"} IN
+    UNION {UNION {UNION {{sys \in {[classes |-> [i \in 1..n |-> Class(Names[i], r[i], 10 * i, IF zeroK /\ d[i] # <<>> THEN 0 ELSE i, d[i], h[i])], nla |-> kind, nlaDep |-> nd] :
+                                     h \in SeqProd([i \in 1..n |-> IF r[i] = "state" THEN {"A"} ELSE homes], 1)} :
+                               WellPosed(sys) /\ (ReadsU(sys) \/ ~UConst(sys))} :
+                         d \in SeqProd([i \in 1..n |-> DepsFor(r[i], alphabet)], 1)} :
+                  nd \in {NoneS} \cup (IF \E i \in 1..n : r[i] = "state" THEN {"t"} \cup {Names[j] : j \in {k \in 1..n : r[k] = "state"}} ELSE {})} :
+           r \in [1..n -> {"const", "cc", "state", "alg"}]}
+SystemsU(n, homes, zeroK) == SystemsUK(n, homes, zeroK, "one") \cup SystemsUK(n, homes, zeroK, "guess")
 \* systems with unknowns of implicit equations:  u + u = 2k ;  u + w = s, u - w = d  (optionally with an initial guess)
 WithNla(sys, kind) == [sys EXCEPT !.nla = kind]
 =============================================================================
